@@ -21,7 +21,7 @@ TUS = {
     'sha256': 'crypto/sha256.cpp', 'ripemd160': 'crypto/ripemd160.cpp', 'sha1': 'crypto/sha1.cpp', 'sha512': 'crypto/sha512.cpp',
     'hmac512': 'crypto/hmac_sha512.cpp',
     'bech32': 'bech32.cpp', 'base58': 'base58.cpp', 'strenc': 'util/strencodings.cpp', 'spanparsing': 'util/spanparsing.cpp',
-    'tx': 'primitives/transaction.cpp', 'merkle': 'consensus/merkle.cpp', 'cleanse': 'support/cleanse.cpp', 'lockedpool': 'support/lockedpool.cpp',
+    'tx': 'primitives/transaction.cpp', 'kerl': 'kerl/kerl.c', 'merkle': 'consensus/merkle.cpp', 'cleanse': 'support/cleanse.cpp', 'lockedpool': 'support/lockedpool.cpp',
 }
 ALL_NATIVE = ['interp', 'script', 'script_error', 'dbginterp', 'dbgscript', 'dbghash', 'value', 'pubkey', 'hash', 'uint256', 'arith',
               'sha256', 'ripemd160', 'sha1', 'sha512', 'hmac512', 'bech32', 'base58', 'strenc', 'spanparsing', 'tx', 'merkle', 'cleanse', 'lockedpool']
@@ -68,7 +68,8 @@ def build_native(wd, shims, tus=None, extra_src=()):
     for e in extra_src: jobs.append((e, os.path.join(wd, 'n_x_' + os.path.basename(e) + '.o')))
     def one(j):
         src, out = j
-        rc, o = _run(['g++'] + NATFLAGS + ['-I' + os.path.join(VERIF, 'shims'), '-c', src, '-o', out])
+        if src.endswith('.c'): rc, o = _run(['gcc', '-std=gnu99', '-O1', '-fPIC', '-w', '-I' + REPO, '-I' + REPO + '/kerl', '-c', src, '-o', out])
+        else: rc, o = _run(['g++'] + NATFLAGS + ['-I' + os.path.join(VERIF, 'shims'), '-c', src, '-o', out])
         return rc, o, src
     with cf.ThreadPoolExecutor(16) as ex:
         for rc, o, src in ex.map(one, jobs):
